@@ -14,7 +14,7 @@ from typing import Any, Dict, List, Optional, Tuple
 
 import numpy
 
-from .. import core, model, fileseam
+from .. import prelude, core, model, fileseam
 from ..runner import NUMPOLY_DIR
 
 ID = "C20"
@@ -87,14 +87,14 @@ def generate(rs: int, tier: str, index: int) -> dict:
     ch = core.Chooser(rs, "plan")
     nwin = MAXEXP // WINDOW + 1
     if tier == "thorough" and index < nwin:
-        return {"property": ID, "run_seed": rs, "tier": tier, "steps": [{"id": 0, "k": "range", "start": index * WINDOW, "count": WINDOW}]}
+        return {"property": ID, "run_seed": rs, "tier": tier, "prelude": prelude.gen_prelude(core.Chooser(rs, "prelude")), "steps": [{"id": 0, "k": "range", "start": index * WINDOW, "count": WINDOW}]}
     if tier == "thorough" and index < nwin + 601:
-        return {"property": ID, "run_seed": rs, "tier": tier, "steps": [{"id": 0, "k": "mulrow", "b": index - nwin, "top": 600}]}
+        return {"property": ID, "run_seed": rs, "tier": tier, "prelude": prelude.gen_prelude(core.Chooser(rs, "prelude")), "steps": [{"id": 0, "k": "mulrow", "b": index - nwin, "top": 600}]}
     if tier == "quick" and index < 40:
         starts = [0, 40, 100, 180, 54000, 55200, 57200, 65400, 130000, 1112100]
         if index < 10:
-            return {"property": ID, "run_seed": rs, "tier": tier, "steps": [{"id": 0, "k": "range", "start": starts[index], "count": 400}]}
-        return {"property": ID, "run_seed": rs, "tier": tier, "steps": [{"id": 0, "k": "mulrow", "b": (index - 10) * 20 + ch.below(20), "top": 600}]}
+            return {"property": ID, "run_seed": rs, "tier": tier, "prelude": prelude.gen_prelude(core.Chooser(rs, "prelude")), "steps": [{"id": 0, "k": "range", "start": starts[index], "count": 400}]}
+        return {"property": ID, "run_seed": rs, "tier": tier, "prelude": prelude.gen_prelude(core.Chooser(rs, "prelude")), "steps": [{"id": 0, "k": "mulrow", "b": (index - 10) * 20 + ch.below(20), "top": 600}]}
     nv = ch.between(1, 3)
     names = model.gen_names(ch.sub("n"), nv, nv)
     start = _gen_terms(ch.sub("t"), nv, ch.between(1, 3))
@@ -110,6 +110,9 @@ def generate(rs: int, tier: str, index: int) -> dict:
         if kind == "deriv":
             st["var"] = c.below(nv)
             st["by"] = c.choice(["name", "index", "poly"])
+        if kind in ("deriv", "mul", "pow", "align", "struct", "pickle"):
+            # observe: check the stage's result but go on with the *same object* (an earlier call must not have touched it)
+            st["observe"] = c.chance(0.5)
         if kind == "pickle":
             st["protocol"] = c.below(6)
         if kind == "text":
@@ -117,7 +120,7 @@ def generate(rs: int, tier: str, index: int) -> dict:
                        "fault": c.choice([None, None, None, "write"]), "u": c.u64(),
                        "encoding": c.choice([None, None, None, "latin-1", "utf-8", "ascii", "utf-16"])})
         stages.append(st)
-    return {"property": ID, "run_seed": rs, "tier": tier, "steps": [{"id": 0, "k": "journey", "names": names, "start": start, "stages": stages}]}
+    return {"property": ID, "run_seed": rs, "tier": tier, "prelude": prelude.gen_prelude(core.Chooser(rs, "prelude")), "steps": [{"id": 0, "k": "journey", "names": names, "start": start, "stages": stages}]}
 
 
 # ---------------------------------------------------------------------------
@@ -370,6 +373,16 @@ class Runner:
                 return
             self.events.append([idx, kind, sorted(map(list, have.items()))])
             trail.append(kind)
+            if st.get("observe"):
+                # the object that went into the stage must still read as the same polynomial
+                try:
+                    still = _read(p, names)
+                except core.Violation as v:
+                    still = {"violation": v.detail}
+                if still != m:
+                    self.violate("monomial-set", kind, sid, f"after stage {idx} {kind} the operand itself reads {still}, it was {m}", {"stage": kind, "operand": True})
+                    return
+                continue
             if kind in ("mul", "pow", "deriv", "swap") and isinstance(res, numpoly.ndpoly) and want:
                 m = want
                 p = _build(m, names) if tuple(res.names) != tuple(names) else res
@@ -440,6 +453,7 @@ def execute(plan: dict) -> dict:
         with warnings.catch_warnings():
             warnings.simplefilter("ignore")
             with numpy.errstate(all="ignore"):
+                prelude.run_prelude(plan.get("prelude"), runner.stats)
                 runner.run()
     finally:
         logging.disable(logging.NOTSET)
@@ -447,6 +461,10 @@ def execute(plan: dict) -> dict:
 
 
 def simplify(plan: dict):
+    if plan.get("prelude"):
+        yield dict(plan, prelude=None)
+        for i in range(len(plan["prelude"])):
+            yield dict(plan, prelude=plan["prelude"][:i] + plan["prelude"][i + 1:] or None)
     step = plan["steps"][0]
     if step["k"] != "journey":
         if step["k"] == "range" and step["count"] > 1:
